@@ -409,6 +409,10 @@ fn url_slice(argv: &[String]) {
         ("%75ser:p%2Fw@", "", "connection_timeout=5000&heartbeat=61", "PLAIN", "\u{0}user\u{0}p/w", "/", 60, 2047),
         ("u:p@", "/%2Fprod", "", "PLAIN", "\u{0}u\u{0}p", "/prod", 60, 2047),
         ("", "/%2f%2f", "heartbeat=7", "PLAIN", "\u{0}guest\u{0}guest", "//", 7, 2047),
+        ("u:p@", "/a%252Fb%2541", "", "PLAIN", "\u{0}u\u{0}p", "a%2Fb%41", 60, 2047),
+        // a connection timeout of 0 ms governs the attempt like any other value: it has run out
+        // before the server can have said anything
+        ("", "", "connection_timeout=0", "", "", "", 0, 0),
     ];
     // host forms: an IPv4 literal, a name (resolved, possibly to several addresses that are
     // tried in turn) and a bracketed IPv6 literal (skipped where the sandbox has no ::1)
@@ -474,6 +478,13 @@ fn url_slice(argv: &[String]) {
             }
         }
         let want = (mech.to_string(), resp.to_string(), vhost.to_string(), hb, chmax);
+        if query == "connection_timeout=0" {
+            if !matches!(r, Err(amiquip::Error::ConnectionTimeout)) {
+                part.violation("urlslice:timeout-zero", format!("{} -> result {:?}, expected ConnectionTimeout", url.replace(&port.to_string(), "PORT"), r.map_err(|e| format!("{:?}", e))), json!({"engine":"simx","scenario":"urlslice","url":url}));
+            }
+            part.sample(json!({"url": url.replace(&port.to_string(), "PORT"), "result": "ConnectionTimeout"}));
+            continue;
+        }
         if r.is_err() || got != want {
             part.violation("urlslice:wrong-parameters", format!("{} -> result {:?}; broker saw (mechanism, response, vhost, heartbeat, channel_max) = {:?}, expected {:?}", url.replace(&port.to_string(), "PORT"), r.map_err(|e| format!("{:?}", e)), got, want), json!({"engine":"simx","scenario":"urlslice","url":url}));
         }
